@@ -25,7 +25,7 @@ RULE_TEXT = ("one run = one generated chart x one history, snapshots at every st
 ASSUMPTIONS = [
     "snapshot points are sampled (up to 3 of the stable points per original run), not all enumerated",
     "downtime is zero: the resumed interpreter continues at the simulated instant of the snapshot; how real downtime should count for pending delays is not specified by the property",
-    "invocations: 35% of the lua/promela charts invoke the harness's thread-free 'echo' invoker (replies reveal the arguments it was started with); invoked SCXML sessions are not generated here (USCXMLInvoker::serialize waits for a child that is blocked in step(), see DESIGN.md 0.7)",
+    "invocations: 35% of the lua/promela charts invoke the harness's thread-free 'echo' invoker (replies reveal the arguments it was started with); 1.5% of the plans are a scenario that snapshots a session whose invoked SCXML child rests (known finding: serialize() does not return)",
 ]
 
 
@@ -34,8 +34,41 @@ class Context(object):
         self.opts = opts
 
 
+def scxml_child_plan(seed, k, rp):
+    """Scenario S: a snapshot of a session whose invoked SCXML child is resting.  serialize() has to return."""
+    from scx import El
+    child = El("scxml", {"version": "1.0", "datamodel": "null", "initial": "c", "name": "sub"})
+    c = child.add(El("state", {"id": "c"}))
+    if rp.random() < 0.5:
+        c.add(El("onentry", children=[El("send", {"event": "ct", "delay": "3600000ms"})]))
+    c.add(El("transition", {"event": "x", "target": "c"}))
+    root = El("scxml", {"version": "1.0", "datamodel": "null", "initial": "s"})
+    st = root.add(El("state", {"id": "s"}))
+    st.add(El("invoke", {"type": "scxml", "id": "sub"}, children=[El("content", children=[child])]))
+    st.add(El("transition", {"event": "a", "target": "t"}))
+    t = root.add(El("state", {"id": "t"}))
+    t.add(El("transition", {"event": "a", "target": "s"}))
+    engine = rp.choice(["large", "fast"])
+    ops = [{"op": "create", "i": 0, "chart": "main", "engine": engine},
+           {"op": "run", "i": 0, "block": 0, "until": ["IDLE"], "max": 60}, {"op": "sleep", "ms": rp.choice([1, 5, 20])},
+           {"op": "serialize", "i": 0, "slot": "s"},
+           {"op": "recv", "i": 0, "name": "a"}, {"op": "run", "i": 0, "block": 0, "until": ["IDLE"], "max": 60}]
+    return {"id": k, "seed": seed, "entropy_seed": seed & 0x7fffffff, "engine": engine, "mode": "S",
+            "sched": {"seed": seed & 0x7fffffff, "policy": "nonpreempt", "max_decisions": 400000},
+            "charts": {"main": root.xml(), "other": root.xml()}, "actors": {"main": ops}}
+
+
+def scenario_s(plan, res):
+    v = hard_failures(res, PROP)
+    if not v and not any(r[KIND] == "snap" for r in res.lines):
+        v.append(("C14.snapshot-returns", "serialize() of a session with a resting invoked child produced no snapshot"))
+    return v
+
+
 def gen_plan(seed, k):
     rp = usimlib.substream(seed, "plan")
+    if rp.random() < 0.015:
+        return scxml_child_plan(seed, k, rp)
     dm = rp.choice(["lua", "lua", "promela", "null"])
     root = p_c01.gen_chart(rp, dm, {"sends": True, "hist_p": 0.45, "par_p": 0.2})
     if dm != "null" and rp.random() < 0.35:
@@ -282,6 +315,8 @@ def check_foreign(plan, usim):
 
 def evaluate(plan, usim):
     res = usim.run(plan)
+    if plan.get("mode") == "S":
+        return scenario_s(plan, res)
     v = hard_failures(res, PROP, kinds=("crash",))
     if res.failed_hard():
         return v
@@ -306,6 +341,11 @@ def run_one(ctx, usim, seed, k, acc):
     acc.decisions += end.get("decisions", 0)
     acc.count("pol.nonpreempt")
     acc.count("engine." + plan["engine"])
+    if plan.get("mode") == "S":
+        acc.count("scenario.snapshot_with_resting_scxml_child")
+        for (rule, detail) in scenario_s(plan, res)[:1]:
+            acc.violations.append({"rule": rule, "detail": detail, "plan": plan, "k": k})
+        return
     v = hard_failures(res, PROP, kinds=("crash",))
     if res.failed_hard() or any(r[KIND] == "op>" and r[6] == "validate" and r[7] == "FATAL" for r in res.lines):
         acc.count("runs_skipped_fatal_or_ended_by_other_property")
@@ -346,6 +386,9 @@ def run_one(ctx, usim, seed, k, acc):
 
 def classify(rule, detail, plan):
     import re
+    if (rule.startswith("C14.stuck[") and "mutex" in rule and "blocked on mutex held by" in detail and "in API call serialize" in detail
+            and "blocked on cond (no deadline)" in detail and '<invoke type="scxml"' in plan["charts"]["main"]):
+        return "C14-serialize-waits-for-resting-scxml-child"
     if rule == "C14.resume-equal":
         m = re.search(r"original=\('ev', '\[\"([^\"]+)\"", detail)
         p = re.search(r"pending delayed sends at the snapshot=(\[.*?\]);", detail)
